@@ -20,3 +20,11 @@ Definition new_entries (st st' : hg) : list Z :=
 (* every entry written by the step is for a round above every round divided so far *)
 Definition window_stepb (st st' : hg) : bool :=
   forallb (fun r => last_round st' <? r) (new_entries st st').
+
+(* the distance bound that makes the window property hold whatever happens later: after the step no
+   round is more than 5 above the next round that was to be processed BEFORE the step, i.e. every block
+   the node can still deliver (round-received >= lc_next st) writes its entry (round-received + 6)
+   above every existing round.  This is what a gate "do not divide more than 6 rounds ahead of
+   consensus" enforces. *)
+Definition gap_stepb (st st' : hg) : bool := last_round st' <=? lc_next st + 5.
+
